@@ -1,22 +1,24 @@
-(* C08 model, part 2: two shape decisions of the code that the recorded findings are about.
-   Definitions only.
+(* C08 model, part 2: two shape decisions of the code.  Definitions only.
 
-   1. Kernel.__call__(x1, x2, diag=True)  (gpytorch/kernels/kernel.py:528-535): after calling
-      forward(..., diag=True) the code decides whether the kernel "ate" the diag option by
-          res.dim() == x1_.dim() and res.shape[-2:] == (n, n)
-      and, if so, takes the diagonal of the last two dimensions.  [takes_diagonal res x n] is
-      that test on shapes (res = shape of the tensor returned by forward, x = shape of x1_,
-      n = number of points).  A kernel with batch shape sp on inputs of batch shape sd returns
-      t ++ [n] when it honours diag and t ++ [n; n] when it does not (t = broadcast batch).
-      [takes_diagonal_fixed] is the test of fixes_proposed/C08_kernel_diag_batch_rank_heuristic.diff
-      (compares with the rank of the broadcast batch instead of the rank of x).
+   1. Kernel.__call__(x1, x2, diag=True)  (gpytorch/kernels/kernel.py:528-540): after calling
+      forward(..., diag=True) the code decides whether the kernel "ate" the diag option and, if not,
+      takes the diagonal of the last two dimensions.  A kernel with batch shape sp on inputs of batch
+      shape sd returns t ++ [n] when it honours diag and t ++ [n; n] when it does not (t = broadcast
+      batch, n = number of points).
+        [takes_diagonal_fixed res t n]: the CURRENT test (since /repo a464a56):
+            res.dim() == len(broadcast batch) + 2 and res.shape[-2:] == (n, n)
+        [takes_diagonal res x n]: the test up to /repo 0d5c998 (finding C08-kernel-diag-batch-rank-heuristic, fixed):
+            res.dim() == x1_.dim() and res.shape[-2:] == (n, n)
+      [call_diag_shape_fixed] / [call_diag_shape]: shape that kernel(x, diag=True) returns under either test.
 
    2. _MultitaskGaussianLikelihoodBase._shaped_noise_covar
-      (gpytorch/likelihoods/multitask_gaussian_likelihood.py:134-137): the task-noise operator
-      (batch shape sp = the likelihood's) is EXPANDED to the data batch shape sd with
-      Tensor.expand, which succeeds iff [expands_to sp sd]; the result then has batch shape sd.
-      [mt_noise_batch] is the batch shape of the noise covariance the code produces (None =
-      raises); the property demands [broadcast_shapes sp sd]. *)
+      (gpytorch/likelihoods/multitask_gaussian_likelihood.py:134-140): batch shape of the noise covariance.
+        [mt_noise_batch_fixed]: the CURRENT code (since /repo e40f817): broadcast of data and likelihood batch;
+        [mt_noise_batch]: up to /repo 0d5c998 the task-noise operator (batch sp) was EXPANDED to the data batch sd
+        with Tensor.expand, which succeeds iff [expands_to sp sd] (None = raises; finding
+        C08-multitask-likelihood-param-batch, fixed).
+      ConstantKernel.forward (gpytorch/kernels/constant_kernel.py:112-123) still expands its constant (batch sp) to
+      the inputs' batch sd: [mt_noise_batch] is also the model of THAT call (finding C08-constant-kernel-param-batch). *)
 From Coq Require Import Arith List Bool ZArith.
 Import ListNotations.
 From GPV Require Import Models.C08_shape.
@@ -36,6 +38,8 @@ Definition takes_diagonal_fixed (res t : shape) (n : nat) : bool :=
 (* shape of kernel(x, diag=True) as Kernel.__call__ returns it, given what forward returned *)
 Definition call_diag_shape (res x : shape) (n : nat) : shape :=
   if takes_diagonal res x n then removelast res else res.
+Definition call_diag_shape_fixed (res t : shape) (n : nat) : shape :=
+  if takes_diagonal_fixed res t n then removelast res else res.
 
 (* Tensor.expand to [target] on a tensor of shape s: right-aligned, only size-1 dimensions stretch,
    the target may have more (leading) dimensions but not fewer *)
@@ -49,6 +53,9 @@ Definition expands_to (s target : shape) : bool := expand_rev (rev s) (rev targe
 
 Definition mt_noise_batch (sp sd : shape) : option shape :=
   if expands_to sp sd then Some sd else None.
+Definition mt_noise_batch_fixed (sp sd : shape) : option shape := broadcast_shapes sd sp.
+(* ConstantKernel.forward: batch shape of the result (None = Tensor.expand raises) *)
+Definition constant_kernel_batch (sp sd : shape) : option shape := mt_noise_batch sp sd.
 
 (* ---- executable wrapper: run_shapes extended by the two input-class bits the driver uses to key
    the recorded findings: [diag collision for n points; likelihood batch expands to data batch] *)
